@@ -34,6 +34,7 @@ class TLCResult:
         self.coverage = {}        # action name -> (distinct, total)
         self.cmd = ''
         self.mode = 'bfs'
+        self.complete = True
 
     @property
     def ok(self):
@@ -113,6 +114,7 @@ def tla_val(v):
 
 _STAT = re.compile(r'(\d+) states generated, (\d+) distinct states found')
 _DEPTH = re.compile(r'depth of the complete state graph search is (\d+)')
+_PROG = re.compile(r'Progress\((\d+)\) at [^\n]*?: ([\d,]+) states generated[^\n]*?, ([\d,]+) distinct states found')
 _SIMSTAT = re.compile(r'The number of states generated: (\d+)')
 _INV = re.compile(r'Invariant (\S+) is violated')
 _ACTPROP = re.compile(r'Action property (\S+) is violated')
@@ -124,11 +126,13 @@ _COV = re.compile(r'^<(\w+) line (\d+), col \d+ to line \d+, col \d+ of module (
 
 def run(module, cfg_text, *, workers=None, simulate=None, depth=None, seed=None,
         timeout=900, env=None, coverage=False, keep=False, extra=(),
-        heap='8g', dfs_queue=False, cont=False, specs_dir=None):
+        heap='8g', dfs_queue=False, cont=False, specs_dir=None, budget_ok=False):
     """Run TLC on specs/<module>.tla with the given cfg text.
 
     simulate: None for exhaustive BFS, or number of behaviours for -simulate.
     Returns TLCResult.  Raises TLCError for machinery failures.
+    budget_ok: the timeout is an exploration budget, not a failure: TLC is stopped and the
+    result (complete=False) carries what the last progress report said.
     """
     specs_dir = specs_dir or SPECS
     work = tempfile.mkdtemp(prefix='verif-tlc-', dir='/var/tmp')
@@ -187,12 +191,26 @@ def run(module, cfg_text, *, workers=None, simulate=None, depth=None, seed=None,
                 p = subprocess.run(cmd, cwd=work, env=e, stdout=ofh, stderr=subprocess.STDOUT,
                                    timeout=timeout)
             except subprocess.TimeoutExpired as exc:
-                raise TLCError('TLC timed out after %ss on %s' % (timeout, module)) from exc
+                if not budget_ok:
+                    raise TLCError('TLC timed out after %ss on %s' % (timeout, module)) from exc
+                p = None
         res.wall_s = time.time() - t0
-        res.rc = p.returncode
         res.out = _read_bounded(outpath)
         out = res.out
         _parse(res)
+        if p is None:
+            res.complete = False
+            res.mode = 'bfs (stopped at its %ds budget)' % timeout
+            res.rc = 0
+            m = None
+            for m in _PROG.finditer(out):
+                pass
+            if m:
+                res.depth = int(m.group(1))
+                res.generated = int(m.group(2).replace(',', ''))
+                res.distinct = int(m.group(3).replace(',', ''))
+            return res
+        res.rc = p.returncode
         if res.rc != 0 and not res.violations:
             raise TLCError('TLC failed on %s (rc=%s):\n%s' % (
                 module, res.rc, _tail(out)))
